@@ -277,7 +277,7 @@ func c13ManySubjects(c *mon.Ctx, r *rand.Rand) {
 // (same map / slice object, same length, different contents); the evaluator
 // must see the datum as it is now.
 func c13InPlace(c *mon.Ctx, r *rand.Rand) {
-	n := []int{3, 31, 32, 33, 64, 100}[r.Intn(6)]
+	n := []int{3, 31, 32, 33, 64, 100, 1024, 4096, 5000}[r.Intn(9)]
 	m := map[string]interface{}{}
 	typed := map[string]int{}
 	l := make([]interface{}, n)
@@ -287,8 +287,12 @@ func c13InPlace(c *mon.Ctx, r *rand.Rand) {
 		l[i] = i
 	}
 	datum := map[string]interface{}{"m": m, "t": typed, "l": l}
-	exprs := []string{`any m as k, v { k == "fresh" and v == 77 }`, `all m as k { k != "fresh" }`, `any t as k, v { k == "fresh" }`, `fresh in m`, `m.fresh == 77`, `any l as x { x == 77 }`, `77 in l`, `all t as _, v { v != 77 }`, `m.k000 == 0`, `all m as k, _ { k != k000 }`}
-	text := exprs[r.Intn(len(exprs))]
+	exprs := []string{`any m as k, v { k == "fresh" and v == -77 }`, `all m as k { k != "fresh" }`, `any t as k, v { k == "fresh" }`, `fresh in m`, `m.fresh == -77`, `any l as x { x == -77 }`, `-77 in l`, `all t as _, v { v != -77 }`, `m.k000 == 0`, `all m as k, _ { k != k000 }`}
+	ei := r.Intn(len(exprs))
+	text := exprs[ei]
+	// outcomes known by construction: before the update / after it / after it is undone
+	known := [][3]string{{"F", "T", "F"}, {"T", "F", "T"}, {"F", "T", "F"}, {"F", "T", "F"}, {"F", "T", "F"}, {"F", "T", "F"}, {"F", "T", "F"}, {"T", "F", "T"}, {"T", "", "T"}, {"F", "T", "F"}}
+	phase := 0
 	used, err, pan, _ := createEval(text)
 	if pan != "" || err != nil {
 		return
@@ -297,6 +301,12 @@ func c13InPlace(c *mon.Ctx, r *rand.Rand) {
 		fresh, _, _, _ := createEval(text)
 		ou, of := evaluate(used, datum), evaluate(fresh, datum)
 		c.Evals(2)
+		if want := known[ei][phase]; want != "" && of.Class3() != want {
+			c.Violation(fmt.Sprintf("C13 in-place-update stale-view got=%s want=%s", of.Class3(), want), "after the caller changed the datum in place, an evaluator (even a freshly created one) does not see the datum as it is now",
+				map[string]any{"expression": text, "entries": n, "after": label, "observed": of.String(), "expected_by_construction": want})
+			return false
+		}
+		phase++
 		if ou.Class() != of.Class() {
 			c.Violation(fmt.Sprintf("C13 history-dependent in-place-update used=%s fresh=%s", ou.Class(), of.Class()), "after the caller changed the datum in place a used evaluator answers differently from a fresh one",
 				map[string]any{"expression": text, "entries": n, "after": label, "used_evaluator": ou.String(), "fresh_evaluator": of.String()})
@@ -309,10 +319,10 @@ func c13InPlace(c *mon.Ctx, r *rand.Rand) {
 	}
 	// same objects, same lengths, different contents
 	delete(m, "k000")
-	m["fresh"] = 77
+	m["fresh"] = -77
 	delete(typed, "k000")
-	typed["fresh"] = 77
-	l[n-1] = 77
+	typed["fresh"] = -77
+	l[n-1] = -77
 	if !step("one key replaced, one element overwritten") {
 		return
 	}
